@@ -448,7 +448,10 @@ def gen_mixed(rng, nops=40, sessions=1, fail_rate=0.15, big_groups=False, resize
                 continue
             p = rng.choice(cands)
             nm = rng.choice(["u", "v", "w", "name_%d" % rng.randint(0, 12), "scale", "k" * rng.choice([1, 30, 90])])
-            if p in dsets and rng.random() < 0.25:
+            if ext and rng.random() < 0.04:     # explicit rebalancing calls (file level and per dataset): no logical effect
+                ops.append(rng.choice([{"op": "rebalance", "kind": "disable"}, {"op": "rebalance", "kind": "enable"}, {"op": "rebalance"},
+                                       {"op": "rebalance", "path": p if p in dsets else (rng.choice(list(dsets)) if dsets else "/absent")}]))
+            elif p in dsets and rng.random() < 0.25:
                 ops.append({"op": "delattr", "path": p, "name": hx(nm)})
             else:
                 k, v = rand_attr_value(rng, big=rng.random() < 0.15)
